@@ -49,13 +49,13 @@ ASSUMPTIONS = ['the tree under test carries the fix commits of fixes/C17-conv-ba
                'the conv theorems are stated over integer-valued arrays (Arr Int) for all inputs: an identity of term sets, not a statement about float rounding',
                'the element type of intermediate results (e.g. double inside vector_norm through std::pow(float, int)) is not modelled',
                'PyTorch itself is not available: the reference is lib/nn_ref_c17.py written from the documented formulas']
-PARTIAL = ['bilinear: the nested-loop definition is proved for rank-2 inputs (B, I) x (B, J) (bilinear_rank2_eq_def); for rank 1 and 3 (and rank 4 with middle leading extents of 1) the composition is modelled and compared with the real code and the oracle on every run but has no Lean theorem (missing: the matmulv2 term structure for the reshaped (B0, 1, B.., I) x (O, I, J) operands carried through multiply / sum / transpose); rank >= 4 in general (repaired defect bilinear.lead-axes, instance bilinear_rank4_regression) likewise',
+PARTIAL = ['bilinear: the nested-loop definition is proved for rank-1, rank-2 and rank-3 inputs (bilinear_rank1_eq_def, bilinear_rank2_eq_def, bilinear_rank3_eq_def); for rank >= 4 (repaired defect bilinear.lead-axes, instance bilinear_rank4_regression) the composition is modelled and compared with the real code and the oracle on every run but has no Lean theorem for all extents (missing: the matmulv2 term structure for the reshaped (B0, .., Bk, 1, Bk+1, I) x (O, I, J) operands with a lead of arbitrary length carried through multiply / sum / transpose)',
            'softmax / softmin / cosine_similarity are proved in the form the code computes (stabilised exponent, quotient summed term by term); equality with the textbook formula is proved under explicit algebraic laws of the element operations (softmax_eq_textbook, cosine_similarity_eq_textbook), which floating point satisfies only approximately',
            'batch_norm: theorem for rank-4 inputs (where the code agrees with PyTorch); other ranks are the known finding batch_norm.rank-not-4 (batch_norm_rank2_counterexample)',
            'conv1d theorem covers None | int argument forms (one plane); conv2d theorem covers None | int | pair forms',
            'conv*_eq_nested_loop (PyTorch group assignment) hold on groups = 1 or O = groups (outside: conv1d_groups_counterexample, conv2d_groups_counterexample); conv*_eq_code_loop hold for every groups with the code\'s assignment o % g']
 MANIFEST = dict(
-    text='Proof: 31 Lean theorems. conv1d and conv2d: the mirrored view::convnd pipeline (reshape by groups, pad, sliding_window of input and of the dilation-expanded weight, multiply, sum, reshape, bias, strided slice) is defined, has the extent floor((n+2p-d(k-1)-1)/s)+1 per plane and each element is the nested loop over (channel, kernel) terms, for every batch, extent, kernel, stride, padding, dilation, groups and optional bias (None / int forms, and pairs for conv2d) with the code\'s group assignment o % g; equal to the PyTorch loop for groups = 1 or one output channel per group, with kernel-checked counterexamples outside. Pooling: shape_pool2d = PyTorch extents in floor and ceil mode (with the last-window rule), every window is non-empty, inside the input and equal to the clipped reference window, for any number of leading axes; max_pool2d = left fold of max over exactly that window from its first element (the greatest element over the integers), avg_pool2d = window sum / number of window elements, the divisor PyTorch uses without padding. Over an abstract element type with opaque operations, for all ranks, extents and axes: softmax / softmin (which elements enter the maximum and the normalising sum: the line through the index along the axis), linear (sum_i x[p,i] w[o,i] + b[o]), pairwise_distance, cosine_similarity, layer / instance / group norm (mean and variance over exactly the trailing block / spatial block / consecutive-channel group), batch_norm on rank 4 and bilinear on rank-2 inputs. Tied to the headers by a differential run of every routine (model + nested-loop oracle) on every check.',
+    text='Proof: 33 Lean theorems. conv1d and conv2d: the mirrored view::convnd pipeline (reshape by groups, pad, sliding_window of input and of the dilation-expanded weight, multiply, sum, reshape, bias, strided slice) is defined, has the extent floor((n+2p-d(k-1)-1)/s)+1 per plane and each element is the nested loop over (channel, kernel) terms, for every batch, extent, kernel, stride, padding, dilation, groups and optional bias (None / int forms, and pairs for conv2d) with the code\'s group assignment o % g; equal to the PyTorch loop for groups = 1 or one output channel per group, with kernel-checked counterexamples outside. Pooling: shape_pool2d = PyTorch extents in floor and ceil mode (with the last-window rule), every window is non-empty, inside the input and equal to the clipped reference window, for any number of leading axes; max_pool2d = left fold of max over exactly that window from its first element (the greatest element over the integers), avg_pool2d = window sum / number of window elements, the divisor PyTorch uses without padding. Over an abstract element type with opaque operations, for all ranks, extents and axes: softmax / softmin (which elements enter the maximum and the normalising sum: the line through the index along the axis), linear (sum_i x[p,i] w[o,i] + b[o]), pairwise_distance, cosine_similarity, layer / instance / group norm (mean and variance over exactly the trailing block / spatial block / consecutive-channel group), batch_norm on rank 4 and bilinear on rank-1, rank-2 and rank-3 inputs. Tied to the headers by a differential run of every routine (model + nested-loop oracle) on every check.',
     note='Lean kernel + propext/Classical.choice/Quot.sound; model hand-written, fidelity rests on the correspondence run; theorems about softmax / norms / linear / distances are about term selection and fold order over abstract operations (float tolerance 4 ulp x terms is the harness\'s); five defects found by this check were repaired in /repo (fixes/C17-*.diff); two known findings remain (conv group interleaving for O/groups > 1, batch_norm on rank 2/3 inputs).',
     technique='Lean 4 proofs over the mirrored convnd / pool2d index pipeline and over compositions of the C06-C08 / C16 models (Mathlib ring tactic in lemma files only) + differential correspondence (IMPL vs Lean MODEL at Float32 / Int vs independent nested-loop NumPy oracle)')
 
